@@ -27,6 +27,7 @@ var mtReal = map[string]string{
 	"cfg": types.MediaTypeOCI1ImageConfig, "dcfg": types.MediaTypeDocker2ImageConfig,
 	"empty": types.MediaTypeOCI1Empty, "lay": types.MediaTypeOCI1Layer, "other": "application/x-other",
 	"octet": "application/octet-stream", "json": "application/json",
+	"foreign": "application/vnd.oci.image.layer.nondistributable.v1.tar+gzip", "dforeign": "application/vnd.docker.image.rootfs.foreign.diff.tar.gzip",
 }
 var mtTok = map[string]string{}
 
@@ -264,8 +265,12 @@ func (t *Tokens) buildBody(name, kind string, tk []string) []byte {
 	case "image":
 		m := types.Manifest{SchemaVersion: 2, MediaType: mtRealOf(kv(tk, "mt")), ArtifactType: mtRealOf(kv(tk, "at")), Annotations: parseAnn(kv(tk, "ann")),
 			Config: types.Descriptor{MediaType: mtRealOf(kv(tk, "cfgmt")), Digest: digest.Digest(t.realDigest(kv(tk, "cfg"))), Size: 2}}
+		lmt := mtReal["lay"]
+		if v := kv(tk, "lmt"); v != "" {
+			lmt = mtRealOf(v) // a layer media type of its own (non-distributable layers are uploaded and referenced like any other)
+		}
 		for _, l := range csv(kv(tk, "layers")) {
-			m.Layers = append(m.Layers, types.Descriptor{MediaType: mtReal["lay"], Digest: digest.Digest(t.realDigest(l)), Size: 2})
+			m.Layers = append(m.Layers, types.Descriptor{MediaType: lmt, Digest: digest.Digest(t.realDigest(l)), Size: 2})
 		}
 		m.Subject = subjDesc()
 		raw, _ = json.Marshal(m)
